@@ -125,6 +125,28 @@ func ruleEpcCoverage(c *Ctx) {
 				}
 			}
 		}
+		// the context under construction handed back by an unexported function of the package that builds it
+		// (epc, err := newBareEpochsContext(spec, state)): fresh all the same, with what that function fills in
+		if as, ok := n.(*ast.AssignStmt); ok && len(as.Rhs) == 1 && len(as.Lhs) >= 1 {
+			if call, ok := ast.Unparen(as.Rhs[0]).(*ast.CallExpr); ok {
+				if g := calleeFunc(info, call); g != nil && g.Pkg() == pk.Types && !g.Exported() {
+					if hd := declOfFunc(pk, g); hd != nil && hd.Body != nil {
+						if bs := structBuilds(info, hd.Body, "EpochsContext"); len(bs) > 0 {
+							if id, ok := as.Lhs[0].(*ast.Ident); ok {
+								if nt := namedOf(info.TypeOf(id)); nt != nil && nt.Obj().Name() == "EpochsContext" {
+									fresh[info.ObjectOf(id)] = true
+									for _, b := range bs {
+										for f := range b.fields {
+											cw[f] = true
+										}
+									}
+								}
+							}
+						}
+					}
+				}
+			}
+		}
 		return true
 	})
 	ast.Inspect(ctor.Body, func(n ast.Node) bool {
@@ -430,11 +452,24 @@ func ruleEpcUpkeep(c *Ctx) {
 	pk, fd := c.P.mustFunc("eth2/beacon", "StandardUpgradeableBeaconState.UpgradeMaybe")
 	info := pk.TypesInfo
 	found := false
+	// the upgrade steps: the bodies of the top-level ifs, or the cases of a type switch over the state
+	var branches []*ast.BlockStmt
 	for _, st := range fd.Body.List {
-		ifs, ok := st.(*ast.IfStmt)
-		if !ok {
-			continue
+		if ifs, ok := st.(*ast.IfStmt); ok {
+			branches = append(branches, ifs.Body)
 		}
+	}
+	ast.Inspect(fd.Body, func(n ast.Node) bool {
+		if ts, ok := n.(*ast.TypeSwitchStmt); ok {
+			for _, cl := range ts.Body.List {
+				if cc, ok := cl.(*ast.CaseClause); ok && len(cc.Body) > 0 {
+					branches = append(branches, &ast.BlockStmt{Lbrace: cc.Pos(), List: cc.Body, Rbrace: cc.End()})
+				}
+			}
+		}
+		return true
+	})
+	for _, branch := range branches {
 		// the events of the branch in execution order, looking into unexported functions of the package it calls:
 		// upgrade, load of the sync committees (from what?), installation of the post-state
 		var up, load, store token.Pos
@@ -501,7 +536,7 @@ func ruleEpcUpkeep(c *Ctx) {
 				return true
 			})
 		}
-		walkEv(ifs.Body, ifs.Body, 0)
+		walkEv(branch, branch, 0)
 		if up == token.NoPos {
 			continue
 		}
@@ -509,13 +544,13 @@ func ruleEpcUpkeep(c *Ctx) {
 		key := "UpgradeMaybe.altair.sync-committees"
 		switch {
 		case load == token.NoPos:
-			c.bad(key, ifs.Pos(), "the altair upgrade installs the post-state without loading its sync committees into the epochs context (CurrentSyncCommittee stays nil; the first sync aggregate fails)")
+			c.bad(key, branch.Pos(), "the altair upgrade installs the post-state without loading its sync committees into the epochs context (CurrentSyncCommittee stays nil; the first sync aggregate fails)")
 		case !loadArgOK:
-			c.bad(key, ifs.Pos(), "sync committees are loaded from something other than the upgraded state")
+			c.bad(key, branch.Pos(), "sync committees are loaded from something other than the upgraded state")
 		case !(up < load && load < store):
-			c.bad(key, ifs.Pos(), "sync committees must be loaded after UpgradeToAltair and before the post-state is installed")
+			c.bad(key, branch.Pos(), "sync committees must be loaded after UpgradeToAltair and before the post-state is installed")
 		default:
-			c.ok(key, ifs.Pos(), "UpgradeToAltair -> LoadSyncCommittees(post) -> install")
+			c.ok(key, branch.Pos(), "UpgradeToAltair -> LoadSyncCommittees(post) -> install")
 		}
 	}
 	if !found {
